@@ -12,6 +12,7 @@ import ast as pyast
 import json
 import math
 import os
+import re
 from concurrent.futures import ThreadPoolExecutor
 from fractions import Fraction
 
@@ -383,7 +384,12 @@ def gen_function(rng, name, nout):
                     e = g.real(1)
                 blk.append(["assign", v, e])
             g.in_loop = False
-            body.append(["forst", lo, hi, blk])
+            st = ["forst", lo, hi, blk]
+            if rng.random() < 0.35 and '"w"' not in json.dumps(blk):
+                # the index is named like the input w (which the body does not read) and used as a value
+                blk.append(["assign", tg[0], ["bin", "+", ["var", tg[0]], ["bin", "*", ["loopvar"], ["num", "0.25"]]]])
+                st.append("w")
+            body.append(st)
     return {"name": name, "inputs": ins, "outputs": outs, "protected": prot, "body": body}
 
 
@@ -549,7 +555,59 @@ def gen_for3(g, d):
     return ["for3", a, st, b, body, "lit" if r.random() < 0.4 else "sub"]
 
 
+# (lo, hi, coef, off, text) with 1 <= coef*i + off <= 6 for lo <= i <= hi; N = 6, n = 6
+AFFINE = [(1, 3, 2, 0, "2*i"), (1, 3, 2, -1, "2*i-1"), (1, 2, 3, -2, "3*i-2"), (1, 2, 3, 0, "3*i"), (1, 6, -1, 7, "n+1-i"),
+          (2, 3, 2, -1, "2*i-1"), (1, 3, -2, 8, "8-2*i"), (2, 5, -1, 7, "7-i"), (1, 2, 2, 2, "2*i+2"), (1, 3, -1, 4, "4-i")]
+
+
+def fits(lo, hi, coef, off, N):
+    return all(1 <= coef * i + off <= N for i in (lo, hi))
+
+
+def gen_affine_loop(g, d):
+    """for-equation whose subscripts are affine in the index with coefficient <> 1 (2*i, 2*i-1, n+1-i, ...)"""
+    r = g.rng
+    lo, hi, coef, off, txt = r.choice(AFFINE)
+    g.loop = (lo, hi)
+    body = []
+    for _ in range(r.choice([1, 1, 2])):
+        others = [a for a in AFFINE if fits(lo, hi, a[2], a[3], g.N)]
+        o = r.choice(others)
+        rhs = ["bin", r.choice(["+", "-", "*"]), ["aidx", r.choice(g.arrays), o[2], o[3], o[4]], g.real(d - 1)]
+        if r.random() < 0.5:
+            rhs = ["bin", "+", rhs, ["bin", "*", ["loopvar"], g.real(0)]]
+        body.append(["eq", ["aidx", r.choice(g.arrays), coef, off, txt], rhs])
+    g.loop = None
+    return ["for", lo, hi, False, body]
+
+
+def gen_shadow_loop(g, d):
+    """for-equation whose index is named like a variable / parameter / input of the model and is used as a value"""
+    r = g.rng
+    name = r.choice(["x3", "p1", "u1", "k1"])
+    saved = list(g.reals)
+    g.reals = [v for v in g.reals if v != name]     # inside the loop the name means the index
+    lo = r.randint(1, 2)
+    hi = r.randint(lo + 1, g.N)
+    g.loop = (lo, hi)
+    body = [["eq", ["lidx", r.choice(g.arrays), 0],
+             ["bin", "+", ["bin", "*", ["loopvar"], ["lidx", r.choice(g.arrays), 0]], g.real(d - 1)]]]
+    if r.random() < 0.4:
+        body.append(["eq", ["lidx", r.choice(g.arrays), 0], g.real(d - 1)])
+    g.loop = None
+    g.reals = saved
+    return ["for", lo, hi, False, body, name]
+
+
 def gen_model(rng, kind="plain"):
+    if kind == "loopx":
+        g = Gen(rng, 6, allow_ne=False)
+        eqs = [g.equation(1) for _ in range(rng.randint(1, 2))]
+        eqs += [gen_affine_loop(g, 2) for _ in range(rng.randint(1, 2))]
+        eqs.append(gen_shadow_loop(g, 2))
+        rng.shuffle(eqs)
+        ieqs = [gen_affine_loop(g, 1) if rng.random() < 0.6 else gen_shadow_loop(g, 1)] if rng.random() < 0.7 else []
+        return {"kind": "model", "name": "M", "N": 6, "eqs": eqs, "ieqs": ieqs, "stream": kind}
     N = rng.randint(3, 6 if kind == "for3" else 5)
     g = Gen(rng, N, allow_ne=(kind == "ne" or rng.random() < 0.3))
     d = rng.choice([1, 2, 2, 3])
@@ -583,6 +641,8 @@ def pe(e):
         return "%s[i]" % e[1] if e[2] == 0 else "%s[i%s%d]" % (e[1], "+" if e[2] > 0 else "-", abs(e[2]))
     if t == "loopvar":
         return "i"
+    if t == "aidx":            # name[coef*i + off], printed as given (2*i, 2*i-1, n+1-i, ...)
+        return "%s[%s]" % (e[1], e[4])
     if t == "un":
         if e[1] == "abs":
             return "abs(%s)" % pe(e[2])
@@ -641,7 +701,8 @@ def pst(st, ind="  "):
             s += "%s%s %s then\n%s" % (ind, "if" if i == 0 else "elseif", pe(c), "".join(pst(x, ind + "  ") for x in blk))
         return s + "%selse\n%s%send if;\n" % (ind, "".join(pst(x, ind + "  ") for x in st[2]), ind)
     if st[0] == "forst":
-        return "%sfor i in %d:%d loop\n%s%send for;\n" % (ind, st[1], st[2], "".join(pst(x, ind + "  ") for x in st[3]), ind)
+        txt = "%sfor i in %d:%d loop\n%s%send for;\n" % (ind, st[1], st[2], "".join(pst(x, ind + "  ") for x in st[3]), ind)
+        return re.sub(r"\bi\b", st[4], txt) if len(st) > 4 and st[4] else txt
     raise ValueError(st[0])
 
 
@@ -664,8 +725,10 @@ def pq(q, ind="  "):
             s += "%s%s %s then\n%s" % (ind, "if" if i == 0 else "elseif", pe(c), "".join(pq(x, ind + "  ") for x in blk))
         return s + "%selse\n%s%send if;\n" % (ind, "".join(pq(x, ind + "  ") for x in q[2]), ind)
     if t == "for":
-        return "%sfor i in %d:%s loop\n%s%send for;\n" % (ind, q[1], "n" if q[3] else str(q[2]),
-                                                          "".join(pq(x, ind + "  ") for x in q[4]), ind)
+        txt = "%sfor i in %d:%s loop\n%s%send for;\n" % (ind, q[1], "n" if q[3] else str(q[2]),
+                                                         "".join(pq(x, ind + "  ") for x in q[4]), ind)
+        # the loop index may be named like a variable / parameter of the enclosing class (it shadows it)
+        return re.sub(r"\bi\b", q[5], txt) if len(q) > 5 and q[5] else txt
     if t == "calleq":
         lhs = q[1][0] if len(q[1]) == 1 else "(%s)" % ", ".join(q[1])
         return "%s%s = %s(%s);\n" % (ind, lhs, q[2], ", ".join(pe(a) for a in q[3]))
@@ -808,6 +871,12 @@ class Ev:
             return v, v, v
         if t == "lidx":
             j = self.i + e[2]
+            if not 1 <= j <= len(self.p[e[1]]):
+                raise IndexError("subscript %d of %s" % (j, e[1]))
+            v = self.p[e[1]][j - 1]
+            return v, v, v
+        if t == "aidx":
+            j = e[2] * self.i + e[3]
             if not 1 <= j <= len(self.p[e[1]]):
                 raise IndexError("subscript %d of %s" % (j, e[1]))
             v = self.p[e[1]][j - 1]
@@ -1457,7 +1526,7 @@ def encode_xcases(m, r):
 
 def encode_cases(m, r):
     """one Coq case per judged point (or one case with impl_ok = false)"""
-    if m.get("decl") in ("fun", "mat") or is_neg_literal_failure(m, r):
+    if m.get("decl") in ("fun", "mat") or is_neg_literal_failure(m, r) or has(m, '"aidx"'):
         return []      # outside the Coq model (oracle-only streams; the negative-literal-step finding)
     eqs = m["eqs"] + m["ieqs"]
     if r.get("generate") != "ok":
@@ -1615,6 +1684,8 @@ def run(ctx):
         models.append(finalize(gen_model(ctx.rng, "for3"), ctx.rng, npts))
     for _ in range(n_eo):
         models.append(finalize(gen_model(ctx.rng, "emptyoff"), ctx.rng, npts))
+    for _ in range(ctx.scaled(14, 80)):
+        models.append(finalize(gen_model(ctx.rng, "loopx"), ctx.rng, npts))
     n_fun = ctx.scaled(18, 150)
     n_mat = ctx.scaled(34, 400)
     for _ in range(n_fun):
@@ -1648,7 +1719,7 @@ def run(ctx):
         if st["points"]:
             distinct.add(m["text"] + json.dumps(m.get("options")))
         for tok in ('"/"', '"./"', '"^"', '"min"', '"max"', '"abs"', '"if"', '"ifeq"', '"for"', '"and"', '"or"', '"not"',
-                    '"fun"', '"lidx"', '"loopvar"', '"der"', '"<>"', '"for3"', '"=="', '".*"', '"calleq"', '"call"', '"aeq"', '"sl"',
+                    '"fun"', '"lidx"', '"aidx"', '"loopvar"', '"der"', '"<>"', '"for3"', '"=="', '".*"', '"calleq"', '"call"', '"aeq"', '"sl"',
                     '"idx2"', '"atr"', '"ascal"'):
             if has(m, tok) or tok in json.dumps(m.get("functions", [])):
                 opcount[tok.strip('"')] = opcount.get(tok.strip('"'), 0) + 1
